@@ -116,7 +116,10 @@ class OscInterface(ABC):
         bundles. Empty strings are sent unchanged.
         '''
         # Time has to be set here for nested bundles (completion msg case).
-        send_time = _libsc3.main.current_tt._seconds
+        # The lock ensures that the current time thread is the caller's and
+        # not a routine being run by a clock's thread at the same time.
+        with _libsc3.main._main_lock:
+            send_time = _libsc3.main.current_tt._seconds
         self._send(self._build_msg(send_time, list(args)), target)
 
     def send_bundle(self, target, time, *elements):
@@ -128,7 +131,8 @@ class OscInterface(ABC):
         an already late timetag (no check for sign).
         '''
         # Time has to be set here for nested bundles consistency.
-        send_time = _libsc3.main.current_tt._seconds
+        with _libsc3.main._main_lock:  # See send_msg.
+            send_time = _libsc3.main.current_tt._seconds
         self._send(self._build_bundle(send_time, [time, *elements]), target)
 
     @abstractmethod
